@@ -1148,6 +1148,52 @@ class PrepareAst:
             type_rhs = ObjTraits.gettype(val_rhs)
 
             def overloaded_operator(default_op, reverse_op):
+                def lookup_in_mro(cls, name):
+                    # like CPython: special methods are looked up in the classes
+                    # of the mro, never in the metaclass
+                    for base in cls.__mro__:
+                        if name in vars(base):
+                            return vars(base)[name]
+                    return None
+
+                # same rule as CPython: if the type of the right operand is a proper
+                # subclass of the type of the left operand and overrides the reflected
+                # method, the reflected method is tried first
+                if (
+                    isinstance(type_lhs, type)
+                    and isinstance(type_rhs, type)
+                    and type_lhs is not type_rhs
+                    and issubclass(type_rhs, type_lhs)
+                    and lookup_in_mro(type_rhs, reverse_op) is not None
+                    and lookup_in_mro(type_rhs, reverse_op)
+                    is not lookup_in_mro(type_lhs, reverse_op)
+                ):
+                    priority_call = self.subcall(
+                        ObjTraits.getattr(type_rhs, reverse_op), [val_rhs, val_lhs], {}
+                    )
+
+                    priority_call.add_bound_statement(lhs)
+                    priority_call.add_bound_statement(rhs)
+
+                    if ObjTraits.get(priority_call.result()) is not NotImplemented:
+                        return priority_call
+
+                    assert ObjTraits.hasattr(
+                        type_lhs, default_op
+                    ), f"both '{default_op}' and '{reverse_op}' returned NotImplemented"
+
+                    call = self.subcall(
+                        ObjTraits.getattr(type_lhs, default_op), [val_lhs, val_rhs], {}
+                    )
+
+                    call.add_bound_statement(lhs)
+                    call.add_bound_statement(rhs)
+
+                    assert (
+                        ObjTraits.get(call.result()) is not NotImplemented
+                    ), f"both '{default_op}' and '{reverse_op}' returned NotImplemented"
+                    return call
+
                 if ObjTraits.hasattr(type_lhs, default_op):
                     call = self.subcall(
                         ObjTraits.getattr(type_lhs, default_op), [val_lhs, val_rhs], {}
@@ -1250,14 +1296,46 @@ class PrepareAst:
                 type_rhs = ObjTraits.gettype(val_rhs)
 
                 def evaluate(normal_name, reverse_name):
+                    # same rule as CPython: a right operand whose type is a proper
+                    # subclass of the type of the left operand is asked first
+                    reverse_first = (
+                        isinstance(type_lhs, type)
+                        and isinstance(type_rhs, type)
+                        and type_lhs is not type_rhs
+                        and issubclass(type_rhs, type_lhs)
+                    )
+
+                    if reverse_first:
+                        first_name, first_type, first_args = (
+                            reverse_name,
+                            type_rhs,
+                            [val_rhs, val_lhs],
+                        )
+                        second_name, second_type, second_args = (
+                            normal_name,
+                            type_lhs,
+                            [val_lhs, val_rhs],
+                        )
+                    else:
+                        first_name, first_type, first_args = (
+                            normal_name,
+                            type_lhs,
+                            [val_lhs, val_rhs],
+                        )
+                        second_name, second_type, second_args = (
+                            reverse_name,
+                            type_rhs,
+                            [val_rhs, val_lhs],
+                        )
+
                     first_result = self.subcall(
-                        ObjTraits.getattr(type_lhs, normal_name), [val_lhs, val_rhs], {}
+                        ObjTraits.getattr(first_type, first_name), first_args, {}
                     )
 
                     if first_result.result() is NotImplemented:
                         result = self.subcall(
-                            ObjTraits.getattr(type_rhs, reverse_name),
-                            [val_rhs, val_lhs],
+                            ObjTraits.getattr(second_type, second_name),
+                            second_args,
                             {},
                         )
                     else:
